@@ -42,7 +42,15 @@ var outDir = func() string {
 	return verifDir
 }()
 const harnessDir = "/verif/harness"
-const repoDir = "/repo"
+// repoDir is the tree under test: /repo for every registered command.
+// VERIF_REPO points the same machinery at a scratch worktree (used only to try
+// seeded changes without touching /repo while other runs use it).
+var repoDir = func() string {
+	if d := os.Getenv("VERIF_REPO"); d != "" {
+		return d
+	}
+	return "/repo"
+}()
 
 type childReport struct {
 	Stage       string                   `json:"stage"`
@@ -169,6 +177,18 @@ func build(st Stage, scratch string) (string, error) {
 		if gcflags != "" {
 			args = append(args, gcflags)
 		}
+		if repoDir != "/repo" {
+			// same module, other replace target
+			gm, err := ioutil.ReadFile(filepath.Join(harnessDir, "go.mod"))
+			if err != nil {
+				return "", err
+			}
+			mf := filepath.Join(scratch, "go.mod")
+			ioutil.WriteFile(mf, []byte(strings.Replace(string(gm), "=> /repo", "=> "+repoDir, 1)), 0644)
+			gs, _ := ioutil.ReadFile(filepath.Join(harnessDir, "go.sum"))
+			ioutil.WriteFile(filepath.Join(scratch, "go.sum"), gs, 0644)
+			args = append(args, "-modfile="+mf)
+		}
 		args = append(args, st.Pkg)
 		cmd = exec.Command("go", args...)
 		cmd.Dir = harnessDir
@@ -224,8 +244,8 @@ func parseRaces(dir, prefix string) []raceReport {
 				}
 				fn := "?"
 				for _, m := range frameRe.FindAllStringSubmatch(s, -1) {
-					if strings.HasPrefix(m[2], "/repo/") {
-						fn = m[1] + "@" + strings.TrimPrefix(m[2], "/repo/") + ":" + m[3]
+					if strings.HasPrefix(m[2], repoDir+"/") {
+						fn = m[1] + "@" + strings.TrimPrefix(m[2], repoDir+"/") + ":" + m[3]
 						break
 					}
 				}
@@ -352,7 +372,7 @@ func crashSignature(stderr string) string {
 	rest := stderr[idx:]
 	fn := ""
 	for _, fm := range frameRe.FindAllStringSubmatch(rest, -1) {
-		if strings.HasPrefix(fm[2], "/repo/") || strings.Contains(fm[2], "/sheens") {
+		if strings.HasPrefix(fm[2], repoDir+"/") || strings.Contains(fm[2], "/sheens") {
 			fn = fm[1]
 			break
 		}
